@@ -876,7 +876,23 @@ def _dyn_into(e, c, a):
     h = head_name(tgt)
     v = a[0]
     from . import rt_type
+    from engine import normalize_ty
     rt = rt_type(v)
+    src_full = pc.get('self_full') or ''
+    if normalize_ty(src_full) == normalize_ty(tgt):
+        return v
+    cands = e.prog.by_key.get((h, 'From', 'from'))
+    if cands:
+        pick = None
+        for f in cands:
+            t = (f.debug.get('__impl__') or (0, 0, 0, ''))[3] or ''
+            if '<' in t and normalize_ty(t[t.index('<') + 1:-1]) == normalize_ty(src_full):
+                pick = f; break
+        if pick is None and len(cands) == 1:
+            pick = cands[0]
+        if pick is None:
+            pick = _pick_from(e, cands, v)
+        return e.run(pick, [v], '<%s as From<%s>>::from' % (tgt, src_full or rt))
     if h == 'String':
         from .m_str import str_bytes
         if isinstance(v, Str):
